@@ -29,6 +29,9 @@ type GossipMsg struct {
 	From uint64
 	Msg  []byte
 	Sent map[uint64]int // deliveries per destination so far
+	// Dead: the sender failed before this broadcast got everywhere; what had not been
+	// delivered by then is lost (also when a node with the same id comes back later)
+	Dead bool
 }
 
 // Cluster owns the nodes, the clients, the virtual clock, the gossip in flight and the
@@ -165,7 +168,7 @@ func (cl *Cluster) DeliverGossip(i int, to *Node) {
 	if to.Down || to.ID == g.From {
 		return
 	}
-	if from := cl.NodeByID(g.From); from != nil && from.Down {
+	if from := cl.NodeByID(g.From); g.Dead || from != nil && from.Down {
 		// memberlist declares a node dead only after seconds of silence: its broadcasts do not
 		// arrive after the survivors have been told about the failure
 		return
@@ -182,7 +185,7 @@ func (cl *Cluster) DeliverAllGossip() int {
 	k := 0
 	for i, g := range cl.gossip {
 		for _, n := range cl.Nodes {
-			if from := cl.NodeByID(g.From); from != nil && from.Down {
+			if from := cl.NodeByID(g.From); g.Dead || from != nil && from.Down {
 				continue
 			}
 			if !n.Down && n.ID != g.From && g.Sent[n.ID] == 0 {
@@ -216,6 +219,11 @@ func (cl *Cluster) FailNode(n *Node) {
 		}
 	}
 	n.Stop()
+	for _, g := range cl.gossip {
+		if g.From == n.ID {
+			g.Dead = true
+		}
+	}
 	for _, s := range cl.Nodes {
 		if !s.Down {
 			s.Members.NotifyGossipLeave(n.ID)
